@@ -368,7 +368,7 @@ class _GenerateChildren:
             if isinstance(v, Ref) and isinstance(c.deref(v), HList) and isinstance(I.a, int):
                 # concrete replay: element by element against the spec
                 items = c.deref(v).items
-                yield "ensures.row_count", len(items) == max(0, I.b - I.a)
+                yield "ensures.row_count", len(items) == max(0, I.b - I.a) and c.deref(v).base is None
                 for off, child in enumerate(items[:6]):
                     j = I.a + off
                     if self.private:
